@@ -5,10 +5,10 @@ from rules import common, c09
 
 CLAIMED = True
 TECHNIQUE = "static analysis over type-checked MIR: provenance of every update of the width counters (char_starts results / unit steps inside a lead-byte-filtered iteration, never byte lengths), normal form of the UTF-8 lead-byte predicate, writer-type composition table of Chunk::encode per (min,max,align) arm, must-follow of finish() after the chunk's encode, pad-before/after-content ordering in the two finish functions"
-LEVEL_TEXT = """Static decision of four structural clauses (the width law itself — cut position arithmetic, partial-write accounting, text arriving split inside a code point — is NOT claimed): (A1) every update of MaxWidthWriter.remaining, LeftAlignWriter.to_fill and RightAlignWriter.to_fill subtracts either a char_starts(..) result or 1 inside an iteration filtered by is_char_boundary — never a byte length; the cut index comes from the lead-byte-filtered enumerate, so the cut falls on a lead byte; (A2) is_char_boundary(b) is a recognised form of 'not a UTF-8 continuation byte'; char_starts counts exactly the bytes satisfying it; (A3) in Chunk::encode the writer per (min,max,align) arm is MaxWidthWriter alone, Left/RightAlignWriter alone, or Left/RightAlignWriter<MaxWidthWriter> (alignment outside, limit inside, so padding also passes the limit), with min feeding to_fill, max feeding remaining and params.fill feeding fill; (A4) on both alignment arms finish() follows the chunk's encode on every Ok path; RightAlignWriter::finish writes the fill before replaying the buffer, LeftAlignWriter::finish writes it after the content (the content has already been forwarded)."""
+LEVEL_TEXT = """Static decision of four structural clauses (the width law itself — cut position arithmetic, partial-write accounting, text arriving split inside a code point — is NOT claimed): (A1) every update of MaxWidthWriter.remaining, LeftAlignWriter.to_fill and RightAlignWriter.to_fill subtracts either a char_starts(..) result or 1 inside an iteration filtered by is_char_boundary — never a byte length; the cut index comes from the lead-byte-filtered enumerate, so the cut falls on a lead byte; (A2) is_char_boundary(b) is a recognised form of 'not a UTF-8 continuation byte'; char_starts counts exactly the bytes satisfying it; (A5) MaxWidthWriter::write swallows a buffer (returns Ok(buf.len()) without forwarding) only when the cut index computed by the lead-byte scan is 0; (A3) in Chunk::encode the writer per (min,max,align) arm is MaxWidthWriter alone, Left/RightAlignWriter alone, or Left/RightAlignWriter<MaxWidthWriter> (alignment outside, limit inside, so padding also passes the limit), with min feeding to_fill, max feeding remaining and params.fill feeding fill; (A4) on both alignment arms finish() follows the chunk's encode on every Ok path; RightAlignWriter::finish writes the fill before replaying the buffer, LeftAlignWriter::finish writes it after the content (the content has already been forwarded)."""
 LEVEL_NOTE = "Trusted: rustc MIR/callee resolution; io::Write contract of the inner writer; UTF-8 encoding facts (continuation bytes are 0x80..=0xBF)."
 EXPLANATION = """Decided: A1 character counting, A2 boundary predicate, A3 truncate-inside/pad-outside composition, A4 padding happens and on the right side. Undecided: the exact cut position arithmetic, accounting under partial writes, text split inside a code point across write calls."""
-DECIDED = ["A1", "A2", "A3", "A4"]
+DECIDED = ["A1", "A2", "A3", "A4", "A5"]
 UNDECIDED = ["cut position arithmetic", "partial-write accounting", "code points split across write calls"]
 TRUSTED = ["rustc nightly MIR + Instance::try_resolve", "io::Write contract", "UTF-8 byte classes"]
 
@@ -107,6 +107,43 @@ def run_cfg(ctx, p, cfg):
             # the loop breaks when no character budget is left
             zero = [SwitchInfo(f, b["id"]) for b in f.blocks if b["term"]["k"] == "switch" and b["id"] in f.reachable_blocks() and f.in_loop(b["id"]) and (cmp_nf(SwitchInfo(f, b["id"]).discr, True) or (None,))[0] == "Eq"]
             r.require(len(zero) == 1 and ("const", "int", 0) in [deep_strip(x) for x in cmp_nf(zero[0].discr, True)[1:]], "stops-when-budget-exhausted", fn=f, detail="loop exit on remaining == 0")
+
+    with ctx.rule("A5", "bytes are swallowed only past the cut", cfg) as r:
+        pred, cnt = helpers(p)
+        mw = [f for f in p.fns.values() if f.d.get("impl_self_adt") == MAXW and f.path.endswith("::write") and f.d.get("impl_trait") == "std::io::Write"]
+        f = mw[0]
+        inner = [c for c in f.calls("std::io::Write::write")]
+        sinks = []
+        for b, e in q.ret_assignments(f):
+            if q.classify_ret(e) == "ok" and inner and not f.dominates(inner[0].block, b):
+                sinks.append((b, e))
+        r.require(len(sinks) == 1, "one-sink-return", fn=f, detail="Ok returns that do not forward to the inner writer: %d" % len(sinks))
+        for b, e in sinks:
+            pay = deep_strip(dict(e[3]).get("0"))
+            r.require(pay[0] == "call" and pay[1].endswith("::len") and deep_strip(pay[2][0]) == ("param", 2), "sink-reports-whole-buffer", fn=f, detail="sink returns Ok(buf.len())")
+            conds = f.conditions(b)
+            gates = []
+            for sb, si, al in conds:
+                d = strip(si.discr)
+                if d[0] == "discr":
+                    continue
+                labs = {si.label(v) for v, _ in al}
+                nf = cmp_nf(si.discr, True in labs) if labs in ({True}, {False}) else None
+                gates.append((nf, si))
+            ok = len(gates) == 1 and gates[0][0] is not None and gates[0][0][0] == "Eq"
+            why = "conditions: %s" % [show(si.discr, 4) for nf, si in gates]
+            if ok:
+                a, b2 = deep_strip(gates[0][0][1]), deep_strip(gates[0][0][2])
+                other = a if b2 == ("const", "int", 0) else b2 if a == ("const", "int", 0) else None
+                cut = None
+                if inner:
+                    rg = [x for x in walk(inner[0].arg(1)) if x[0] == "agg" and x[1].endswith("RangeTo")]
+                    if rg:
+                        cut = deep_strip(dict(rg[0][3])["end"])
+                ok = other is not None and cut is not None and other == cut and any(x[0] == "call" and x[1] == "core::iter::traits::iterator::Iterator::filter" for x in walk(other))
+                why = "sink iff the scanned cut index == 0: %s" % show(other, 5) if ok else "sink guarded by %s" % show(gates[0][1].discr, 5)
+            r.require(ok, "sink-only-when-cut-index-is-zero", fn=f, detail=why,
+                      fail_detail="MaxWidthWriter::write swallows the buffer under a condition other than `cut index == 0` computed by the lead-byte scan (%s): continuation bytes of a character whose lead byte was already forwarded can be dropped, producing invalid UTF-8" % why)
 
     with ctx.rule("A3", "truncate then pad, never exceed M", cfg) as r:
         f = p.fn(CHUNK_ENCODE)
